@@ -211,7 +211,21 @@ Definition try_variant (s : stage_code) : stage_code :=
 Definition fork_par : nat := match st with SFork _ n _ => n | _ => 1%nat end.
 Definition c09_bound (k : nat) : list Z :=
   if fork_failfast then image (try_variant inner_stage) k (sent_on 0 ms) else expected k.
+(* gated runs (every call of the user function parks until the driver releases it), no cancel: an output is seen closed
+   only when every element handed over has been released - "outputs are closed only after every worker has finished",
+   and a worker is not finished while its call is in flight *)
+Fixpoint closed_after_releases (sent released : nat) (l : list (move * outcome)) : bool :=
+  match l with
+  | [] => true
+  | (MSend _ _, ODone) :: r => closed_after_releases (S sent) released r
+  | (MRelease _, _) :: r => closed_after_releases sent (S released) r
+  | (MRecv _, OClosed) :: r => Nat.eqb sent released && closed_after_releases sent released r
+  | _ :: r => closed_after_releases sent released r
+  end.
+Definition fork_gated : bool := match st with SFork _ _ g => g | _ => false end.
+
 Definition c09_ok : bool :=
+  (if fork_gated && has_fun && negb cancelled_run && negb fork_failfast then closed_after_releases 0 0 ms else true) &&
   negb (crashed c) &&
   forallb (fun k => submset (rcvd_on k ms) (c09_bound k)) (seq 0 nobs) &&
   (if fork_failfast then Nat.leb (length (rcvd_on 1 ms)) fork_par else true) &&
